@@ -273,3 +273,25 @@ func VxH_C19_extends_merge() {
 	vx.ObserveString("want", want)
 	vx.Assert("extends-merges-undeclared-descriptors-only", got == want)
 }
+
+// symbolic and alphabetic are defined on strictly positive values only: with an explicit range
+// that lets 0 through, 0 is printed by the fallback style; a negative value prints the sign and
+// the representation of its absolute value.
+func VxH_C19_explicit_range_zero() {
+	sys := []string{"symbolic", "alphabetic"}[vx.Choose("sys", 2)]
+	v := vx.Int("v", -6, 6)
+	cs := vxStyle(sys, 2)
+	d := cs["x"]
+	d.Range = pr.OptionalRanges{Ranges: [][2]int{{-10, 10}}}
+	cs["x"] = d
+	s := cs.RenderValue(v, "x")
+	vx.Reach("rendered")
+	switch {
+	case v == 0:
+		vx.Assert("zero-falls-back", s == "0")
+	case v < 0:
+		vx.Assert("negative-is-sign-plus-absolute-value", s == "-"+cs.RenderValue(-v, "x"))
+	default:
+		vx.Assert("positive-not-empty", len(s) > 0)
+	}
+}
